@@ -160,23 +160,24 @@ class Interp:
             self.assign(env, e[2], new)
             return cur
         if k == "assignx":
-            v = self.ev(e[2], env)
-            self.assign(env, e[1], self.coerce(self.lookup(env, e[1])[0], v))
+            # the value of 'x = v' is x afterwards: it has the declared type of the slot (the analyser types '(x = 1) * y' with 'long x'
+            # as long arithmetic), so an int stored in a long is a long
+            v = self.coerce(self.lookup(env, e[1])[0], self.ev(e[2], env))
+            self.assign(env, e[1], v)
             return v
         if k == "aassignx":
-            # value of 'a[i] = v' is the value assigned (syntax.md: '=' is right-associative in expressions)
-            arr = self.lookup(env, e[1])
+            # value of 'a[i] = v' is the element assigned (syntax.md: '=' is right-associative in expressions). Arrays are values held by
+            # the variable: whatever i and v do to the array while they are evaluated ('a[0] = (a[2] = 7)') is kept
             i = self.ev(e[2], env)
             v = self.ev(e[3], env)
+            arr = self.lookup(env, e[1])
             if not 0 <= i[1] < len(arr[1]):
                 raise RuntimeErr("index out of bounds")
             elem = self.coerce(arr[0][:-2], v)
             new = list(arr[1])
             new[i[1]] = elem[1]
             self.assign(env, e[1], (arr[0], new))
-            if elem[0] != v[0]:
-                raise Unspecified("value of an element assignment that converts")
-            return v
+            return elem
         if k == "arrlit":
             vals = [self.ev(x, env) for x in e[2]]
             return (e[1], [self.coerce(e[1][:-2], v)[1] for v in vals])
@@ -302,9 +303,9 @@ class Interp:
             v = self.ev(s[2], env)
             self.assign(env, s[1], self.coerce(self.lookup(env, s[1])[0], v))
         elif k == "aassign":
-            arr = self.lookup(env, s[1])
             i = self.ev(s[2], env)
             v = self.ev(s[3], env)
+            arr = self.lookup(env, s[1])
             if not 0 <= i[1] < len(arr[1]):
                 raise RuntimeErr("index out of bounds")
             elem = self.coerce(arr[0][:-2], v)
